@@ -327,7 +327,8 @@ class World(object):
         if isinstance(obj, dict) and name in ('keys', 'values', 'items'):
             if name == 'keys' and not has_sym(list(obj.keys())):
                 return obj.keys()
-            return list(getattr(obj, name)())
+            from hv.vc.values import KeysList, ValuesList
+            return (ValuesList if name == 'values' else KeysList)(getattr(obj, name)())
         if isinstance(obj, dict) and name == 'update' and args:
             src = args[0]
             if isinstance(src, dict):
